@@ -344,6 +344,20 @@ func (e *Env) Do(op Op) *Violation {
 		}
 	case "items":
 		return e.CheckScan()
+	case "itemsc":
+		// a scan that is paused after op.Size items while Compact runs (same goroutine), then drained:
+		// nothing was written meanwhile, so it must still return exactly the model
+		return e.checkScanAcross(op.Size, func() *Violation {
+			cr, err := e.DB.Compact()
+			if err != nil && !e.IOFaultSeen {
+				return violf("api-error", "Compact: %v", err)
+			}
+			if cr.CompactedSegments > 0 {
+				e.Probes["compacted_segments"] += cr.CompactedSegments
+				e.Probes["compaction_inside_scan"]++
+			}
+			return nil
+		})
 	case "sync":
 		fired := e.FS.FaultsFired
 		if err := e.DB.Sync(); err != nil {
@@ -621,6 +635,54 @@ func (e *Env) resolveFailedWrite(op Op, nv mval) *Violation {
 	}
 	if int(e.DB.Count()) != len(e.Model.M) {
 		return violf("count-mismatch", "after %s failed with the injected I/O error Count() = %d, %d keys are there", op, e.DB.Count(), len(e.Model.M))
+	}
+	return nil
+}
+
+// checkScanAcross: like CheckScan, with `mid` executed after the first n items were returned.
+func (e *Env) checkScanAcross(n int, mid func() *Violation) *Violation {
+	it := e.DB.Items()
+	seen := map[string]int{}
+	cnt := 0
+	ran := false
+	for {
+		if cnt >= n && !ran {
+			ran = true
+			if v := mid(); v != nil {
+				return v
+			}
+		}
+		k, v, err := it.Next()
+		if err == pogreb.ErrIterationDone {
+			break
+		}
+		if err != nil {
+			return violf("api-error", "Items.Next: %v", err)
+		}
+		cnt++
+		if cnt > len(e.Model.M)+1000 {
+			return violf("scan-mismatch", "scan does not terminate")
+		}
+		seen[string(k)]++
+		want, ok := e.Model.Get(k)
+		if !ok || !bytes.Equal(v, want) {
+			return violf("scan-mismatch", "scan paused across a compaction returned %s=%s, model has %s", clip(k), showVal(v), showVal(want))
+		}
+		e.retain(v, "Next(value)")
+		e.retain(k, "Next(key)")
+	}
+	if !ran {
+		if v := mid(); v != nil {
+			return v
+		}
+	}
+	for k, c := range seen {
+		if c != 1 {
+			return violf("scan-mismatch", "scan returned key %s %d times", clip([]byte(k)), c)
+		}
+	}
+	if len(seen) != len(e.Model.M) {
+		return violf("scan-mismatch", "scan paused across a compaction returned %d keys, model has %d", len(seen), len(e.Model.M))
 	}
 	return nil
 }
